@@ -26,6 +26,9 @@ for e, fns, d in (
     ('h_call_rcu_public', ('call_rcu',), 'call_rcu(): selection + one enqueue on the selected helper inside one read-side critical section of the caller; nesting restored'),
 ):
     OBLIGATIONS.append(Ob(name='C03.O3.' + e[2:], harness=SEL, entry=e, defines=D, mode='legacy', replace=('get_possible_cpus_array_len',), unwind=4, min_covers=2, checks=CK, functions=fns, timeout=300, desc=d))
+OBLIGATIONS.append(Ob(name='C03.O3.free_all_cpu', harness=SEL, entry='h_free_all', defines=D + ('FREE_ALL',), mode='legacy', replace=('get_possible_cpus_array_len', 'urcu_memb_synchronize_rcu', 'urcu_memb_call_rcu_data_free'),
+    unwind=5, min_covers=2, checks=CK, functions=('free_all_cpu_call_rcu_data',), timeout=300,
+    desc='free_all_cpu_call_rcu_data on tables of 1..3 CPUs with any occupancy: all per-CPU helpers are unpublished, THEN a grace period, THEN each is freed exactly once (a helper is never freed while a call_rcu() that looked it up may still enqueue on it)'))
 META = {
     'level': 'other',
     'explanation': 'C03 quantifies over schedules of enqueuers, helper threads and grace periods. Contracts decide the per-function obligations: _call_rcu enqueues exactly once (FIFO, wake-up handshake); one helper iteration = splice all, one grace period, each spliced callback once in order with its own rcu_head, never a callback enqueued during that grace period; a freed helper hands its leftovers to the default helper once and in order. Batches and leftovers are bounded (<= 3); the unbounded queue contracts are C10.',
